@@ -1135,6 +1135,7 @@ static CURRENT: Mutex<String> = Mutex::new(String::new());
 /// hang guard of a worker process: no new call within the limit => report and exit
 fn spawn_hang_guard(limit_secs: u64) {
     let hb = HEARTBEAT.get_or_init(|| std::sync::Arc::new(std::sync::atomic::AtomicU64::new(0))).clone();
+    let main_tid = crate::common::par::my_tid();
     std::thread::spawn(move || {
         let mut last = (u64::MAX, std::time::Instant::now());
         loop {
@@ -1143,6 +1144,10 @@ fn spawn_hang_guard(limit_secs: u64) {
             if b != last.0 {
                 last = (b, std::time::Instant::now());
             } else if last.1.elapsed().as_secs() > limit_secs {
+                if !crate::common::par::confirm_stuck(main_tid, std::time::Duration::from_secs(limit_secs), &|| hb.load(std::sync::atomic::Ordering::Relaxed) == b) {
+                    last = (u64::MAX, std::time::Instant::now());
+                    continue;
+                }
                 let c = CURRENT.lock().map(|x| x.clone()).unwrap_or_default();
                 let v = J::obj([("sig", J::s("hang · Stdfs call did not return within the time limit")), ("n", J::i(1)), ("detail", J::s(format!("worker stuck for > {} s in {}", limit_secs, c))), ("case", J::s(&c))]);
                 println!("V\t{}\nDONE", v.to_string());
